@@ -123,15 +123,17 @@ CLAIMED = {
              'unchanged; a successful merge keeps T_ref, takes the union of ranges, and its table is the union map (other wins); a conflicting '
              'datum is rejected; overwrite never is; a file naming one group twice is rejected and distinct names are all accepted; ORDER-FREENESS of '
              'the Cp table and the valid range: a table is accepted iff its data agree with what is there, whether two files are both accepted does '
-             'not depend on their order, and when they are the merged table is the same map and the merged range the same interval (for '
-             'whole include trees order-freeness is decided by the tree oracle; for files sharing one T_ref the merged reference enthalpy AND entropy are the other file\'s value where given - after the tolerance comparison - else the value there: C13_update_H_same_Tref, C13_update_S_same_Tref). IDEMPOTENCE: merging the same correlation a second '
+             'not depend on their order, and when they are the merged table is the same map and the merged range the same interval; at the '
+             'level of whole LIBRARIES GroupLibrary.Update is proved to work group by group and two libraries merged into a third in either order '
+             'leave every group with the same table and range (C13_library_update_groupwise, C13_library_order_free; for deeper '
+             'include trees and the reference values order-freeness is decided by the tree oracle; for files sharing one T_ref the merged reference enthalpy AND entropy are the other file\'s value where given - after the tolerance comparison - else the value there: C13_update_H_same_Tref, C13_update_S_same_Tref). IDEMPOTENCE: merging the same correlation a second '
              'time succeeds and returns the identical correlation - table, range, reference enthalpy and entropy, re-fit (C13_update_twice, for any '
              'reflexive isclose). '
              'Tie: correspondence of update sequences (state after every step) and of include trees; direct oracle: union / conflict / '
              'atomicity / idempotence on sequences, and all include orders and nestings (star, chain) of split data loading to equal contents.',
         design='5 / C13',
-        note=TB + 'Axioms: standard-library real-number axioms as printed. Files share one T_ref (quantifier); order-freeness over arbitrary '
-             'include trees (merge_order_free) is decided by the oracle over all generated orders, not yet by a theorem.',
+        note=TB + 'Axioms: standard-library real-number axioms as printed. Files share one T_ref (quantifier); order-freeness of two included libraries is a theorem, over arbitrary '
+             'include trees it is decided by the oracle over all generated orders.',
         technique='Coq proofs over R of a state+exception step model + vm_compute correspondence + all-orders load oracle'),
     'C18': dict(
         text='Machine-checked proof (Coq): the meaning of "to the six significant digits written" - any correct 6-digit rounding has relative '
